@@ -164,6 +164,182 @@ theorem obj_pairs (es : List ObjEv) : ∀ a, alt a (objRun a es).2 = some (objRu
     intro a
     cases a <;> cases e <;> simp [objRun, alt, ih]
 
+/-! #### HLS sessions -/
+
+/-- runOnRead (true) / runOnUnread (false) executions of session `n` -/
+def hProj (n : Nat) (out : List HOut) : List Bool :=
+  out.filterMap fun o => match o with | .hook m b => if m = n then some b else none | _ => none
+
+/-- the muxer references session `n` (its runOnRead pair is open) -/
+def hOpen (s : HState) (n : Nat) : Bool := decide (n ∈ s.plain) || decide (s.cdn = some n)
+
+structure HInv (s : HState) : Prop where
+  nodup : s.plain.Nodup
+  plainSeen : ∀ n ∈ s.plain, n ∈ s.seen
+  cdnSeen : ∀ m, s.cdn = some m → m ∈ s.seen ∧ m ∉ s.plain
+
+theorem hProj_append (n : Nat) (a b : List HOut) : hProj n (a ++ b) = hProj n a ++ hProj n b := by
+  simp [hProj]
+
+theorem hProj_stops (n : Nat) (l : List Nat) (hl : l.Nodup) :
+    hProj n (l.map fun m => HOut.hook m false) = if n ∈ l then [false] else [] := by
+  induction l with
+  | nil => rfl
+  | cons x xs ih =>
+    rw [List.nodup_cons] at hl
+    simp only [List.map_cons, hProj, List.filterMap_cons]
+    have ih' := ih hl.2
+    unfold hProj at ih'
+    by_cases hx : x = n
+    · subst hx; simp [ih', hl.1]
+    · have : ¬ n = x := fun e => hx e.symm
+      simp [hx, this, ih']
+
+theorem hls_stopAll (s : HState) (hi : HInv s) (n : Nat) :
+    hProj n (stopAll s) = if hOpen s n then [false] else [] := by
+  unfold stopAll hOpen
+  rw [hProj_append, hProj_stops n s.plain hi.nodup]
+  cases hc : s.cdn with
+  | none => by_cases hp : n ∈ s.plain <;> simp [hp, hProj]
+  | some m =>
+    have := hi.cdnSeen m hc
+    by_cases hp : n ∈ s.plain
+    · have : m ≠ n := fun e => this.2 (e ▸ hp)
+      simp [hp, hProj, this]
+    · by_cases hm : m = n <;> simp [hp, hProj, hm]
+
+theorem hls_step (s : HState) (hi : HInv s) (e : HEv) (n : Nat) :
+    HInv (hlsStep s e).1 ∧ alt (hOpen s n) (hProj n (hlsStep s e).2) = some (hOpen (hlsStep s e).1 n) := by
+  obtain ⟨h1, h2, h3⟩ := hi
+  have hi : HInv s := ⟨h1, h2, h3⟩
+  cases e with
+  | openS k =>
+    by_cases hk : k ∈ s.seen
+    · have e : hlsStep s (.openS k) = (s, []) := by simp [hlsStep, hk]
+      rw [e]; exact ⟨hi, by simp [hProj, alt]⟩
+    by_cases hu : s.up = true
+    · have e : hlsStep s (.openS k) =
+          ({ s with plain := s.plain ++ [k], seen := k :: s.seen }, [.hook k true]) := by simp [hlsStep, hk, hu]
+      rw [e]
+      have hkp : k ∉ s.plain := fun h => hk (h2 k h)
+      refine ⟨⟨?_, ?_, ?_⟩, ?_⟩
+      · exact List.nodup_append.mpr ⟨h1, by simp, by intro a ha b hb; simp at hb; subst hb; exact fun e => hkp (e ▸ ha)⟩
+      · intro a ha; simp at ha; rcases ha with ha | ha
+        · exact List.mem_cons_of_mem _ (h2 a ha)
+        · subst ha; exact List.mem_cons_self
+      · intro m hm
+        have := h3 m hm
+        refine ⟨List.mem_cons_of_mem _ this.1, ?_⟩
+        simp; exact ⟨this.2, fun e => hk (e ▸ this.1)⟩
+      · by_cases hkn : k = n
+        · subst hkn
+          have hc : s.cdn ≠ some k := fun e => hk (h3 k e).1
+          simp [hProj, alt, hOpen, hkp, hc]
+        · have : ¬ n = k := fun e => hkn e.symm
+          simp [hProj, alt, hOpen, hkn, this]
+    · have e : hlsStep s (.openS k) = ({ s with seen := k :: s.seen }, [.err k]) := by simp [hlsStep, hk, hu]
+      rw [e]
+      refine ⟨⟨h1, fun a ha => List.mem_cons_of_mem _ (h2 a ha), fun m hm => ⟨List.mem_cons_of_mem _ (h3 m hm).1, (h3 m hm).2⟩⟩, ?_⟩
+      simp [hProj, alt, hOpen]
+  | cdnS k =>
+    by_cases hk : k ∈ s.seen
+    · have e : hlsStep s (.cdnS k) = (s, []) := by simp [hlsStep, hk]
+      rw [e]; exact ⟨hi, by simp [hProj, alt]⟩
+    by_cases hu : s.up = true
+    · have e : hlsStep s (.cdnS k) = ({ s with cdn := some k, seen := k :: s.seen },
+          (match s.cdn with | some m => [HOut.hook m false] | none => []) ++ [.hook k true]) := by
+        simp only [hlsStep, hk, hu, if_true, if_false]
+        cases s.cdn <;> rfl
+      rw [e]
+      have hkp : k ∉ s.plain := fun h => hk (h2 k h)
+      refine ⟨⟨h1, fun a ha => List.mem_cons_of_mem _ (h2 a ha), ?_⟩, ?_⟩
+      · intro m hm; simp at hm; subst hm; exact ⟨List.mem_cons_self, hkp⟩
+      · rw [hProj_append]
+        cases hc : s.cdn with
+        | none =>
+          by_cases hkn : k = n
+          · subst hkn; simp [hProj, alt, hOpen, hkp, hc]
+          · have : ¬ n = k := fun e => hkn e.symm
+            simp [hProj, alt, hOpen, hkn, this, hc]
+        | some m =>
+          have hm := h3 m hc
+          have hmk : m ≠ k := fun e => hk (e ▸ hm.1)
+          by_cases hkn : k = n
+          · subst hkn
+            simp [hProj, alt, hOpen, hkp, hc, hmk]
+          · have hnk : ¬ n = k := fun e => hkn e.symm
+            by_cases hmn : m = n
+            · subst hmn; simp [hProj, alt, hOpen, hc, hkn, hm.2, hnk]
+            · have : ¬ n = m := fun e => hmn e.symm
+              simp [hProj, alt, hOpen, hc, hkn, hmn, hnk, this]
+    · have e : hlsStep s (.cdnS k) = ({ s with seen := k :: s.seen }, [.err k]) := by simp [hlsStep, hk, hu]
+      rw [e]
+      refine ⟨⟨h1, fun a ha => List.mem_cons_of_mem _ (h2 a ha), fun m hm => ⟨List.mem_cons_of_mem _ (h3 m hm).1, (h3 m hm).2⟩⟩, ?_⟩
+      simp [hProj, alt, hOpen]
+  | down =>
+    refine ⟨⟨by simp [hlsStep], by simp [hlsStep], by simp [hlsStep]⟩, ?_⟩
+    show alt (hOpen s n) (hProj n (stopAll s)) = _
+    rw [hls_stopAll s hi n]
+    cases ho : hOpen s n <;> simp [alt, hlsStep, hOpen]
+  | up =>
+    exact ⟨⟨h1, h2, h3⟩, by simp only [hlsStep, hProj, List.filterMap_nil, alt]; rfl⟩
+  | kick k =>
+    by_cases hc : s.cdn = some k
+    · have e : hlsStep s (.kick k) = ({ s with cdn := none }, [.hook k false]) := by simp [hlsStep, hc]
+      rw [e]
+      refine ⟨⟨h1, h2, by simp⟩, ?_⟩
+      have hk := h3 k hc
+      by_cases hkn : k = n
+      · subst hkn; simp [hProj, alt, hOpen, hc, hk.2]
+      · have : ¬ n = k := fun e => hkn e.symm
+        simp [hProj, alt, hOpen, hc, hkn, this]
+    by_cases hp : k ∈ s.plain
+    · have e : hlsStep s (.kick k) = ({ s with plain := s.plain.filter (· != k) }, [.hook k false]) := by
+        simp [hlsStep, hc, hp]
+      rw [e]
+      refine ⟨⟨h1.filter _, fun a ha => h2 a (List.mem_filter.mp ha).1,
+        fun m hm => ⟨(h3 m hm).1, fun h => (h3 m hm).2 (List.mem_filter.mp h).1⟩⟩, ?_⟩
+      by_cases hkn : k = n
+      · subst hkn
+        have : s.cdn ≠ some k := hc
+        simp [hProj, alt, hOpen, hp, this]
+      · have hnk : ¬ n = k := fun e => hkn e.symm
+        simp [hProj, alt, hOpen, hkn, List.mem_filter, hnk]
+    · have e : hlsStep s (.kick k) = (s, []) := by simp [hlsStep, hc, hp]
+      rw [e]; exact ⟨hi, by simp [hProj, alt]⟩
+  | fin =>
+    refine ⟨⟨by simp [hlsStep], by simp [hlsStep], by simp [hlsStep]⟩, ?_⟩
+    show alt (hOpen s n) (hProj n (stopAll s)) = _
+    rw [hls_stopAll s hi n]
+    cases ho : hOpen s n <;> simp [alt, hlsStep, hOpen]
+
+/-- HLS sessions: for every script and every session, runOnRead/runOnUnread alternate, the pair is open
+exactly while the muxer references the session -/
+theorem hls_pairs (es : List HEv) (n : Nat) : ∀ s, HInv s →
+    alt (hOpen s n) (hProj n (hlsRun s es).2) = some (hOpen (hlsRun s es).1 n) := by
+  induction es with
+  | nil => intro s _; simp [hlsRun, hProj, alt]
+  | cons e es ih =>
+    intro s hi
+    obtain ⟨hi', h1⟩ := hls_step s hi e n
+    show alt (hOpen s n) (hProj n ((hlsStep s e).2 ++ (hlsRun (hlsStep s e).1 es).2)) = _
+    rw [hProj_append, alt_append, h1]
+    exact ih _ hi'
+
+/-- ... and once the muxer is destroyed (`fin` last) every pair is closed -/
+theorem hls_end_closed (es : List HEv) (n : Nat) :
+    alt false (hProj n (hlsRun {} (es ++ [.fin])).2) = some false := by
+  have h0 : HInv ({} : HState) := ⟨by simp, by simp, by simp⟩
+  have := hls_pairs (es ++ [.fin]) n {} h0
+  have hopen0 : hOpen ({} : HState) n = false := by simp [hOpen]
+  rw [hopen0] at this
+  rw [this]
+  have hfin : ∀ (l : List HEv) (s : HState), hOpen (hlsRun s (l ++ [.fin])).1 n = false := by
+    intro l; induction l with
+    | nil => intro s; simp [hlsRun, hlsStep, hOpen]
+    | cons x xs ih => intro s; exact ih _
+  rw [hfin]
+
 /-- **Tie for the per-object machines** (regenerated from the Go sources by tools/xlate/c20): these are
 all call sites of hooks.OnRead / hooks.OnConnect in the protocol servers and the way each consumes
 the returned closure — `defer` in the serving function (`objRun`), one assignment in the object's
@@ -190,5 +366,9 @@ example : hookEvents .avail (trace (init cHooks)
   [true, false, true, false, true, false, true, false] := by decide
 
 example : (rtspRun .initial [.setup, .play, .play, .pause, .play, .close]).2 = [true, false, true, false] := by decide
+
+example : (hlsRun {} [.openS 1, .cdnS 5, .cdnS 6, .down, .openS 2, .up, .openS 3, .kick 3, .openS 4, .fin]).2 =
+  [.hook 1 true, .hook 5 true, .hook 5 false, .hook 6 true, .hook 1 false, .hook 6 false, .err 2,
+   .hook 3 true, .hook 3 false, .hook 4 true, .hook 4 false] := by decide
 
 end MtxVerif.C20
